@@ -93,7 +93,10 @@ for content in (b"", b"a", b"b", b"ab", "é".encode(), b"\xff", b"a\x00"):
 OTHERS = ["N", "T", "F", "g:6d:43", "g:6d:44", "g:6e:43",
           "C( g:6d:43 t( i:1 ) )", "C( g:6d:43 t( f:3ff0000000000000 ) )", "C( g:6d:43 t( ) )",
           "C( g:6d:44 t( i:1 ) )", "R( i:1 )", "R( L:1 )", "R( s:61 )", "R( z:61 )", "R( t( i:1 s:61 ) )",
-          "U:1", "U:2"]
+          "U:1", "U:2",
+          # zero-valued fields / nil slices that are the same Python object as their non-nil forms
+          "tnil", "t( )", "C( g:6d:43 tnil )", "C( g:6d:44 tnil )", "C( g:: tnil )", "C( g:: t( ) )", "g::", "R( tnil )", "R( t( ) )",
+          "R( i:0 )", "R( F )", "R( f:0000000000000000 )", "R( s: )", "t( tnil )", "t( t( ) )", "C( g:6d:43 t( tnil ) )", "C( g:6d:43 t( t( ) ) )"]
 
 UNHASHABLE = ["l[ ]", "l[ i:1 ]", "a:", "a:61", "m{ }", "m{ i:1 i:2 }", "d{ }", "d{ i:1 i:2 }",
               "t( l[ ] )", "t( i:1 t( a:61 ) )", "C( g:6d:43 t( l[ ] ) )", "R( l[ i:1 ] )", "R( m{ } )",
@@ -263,8 +266,8 @@ def c07(res, rng, tier):
 ALPHA10 = ["i:1", "f:3ff0000000000000", "T", "L:1", "s:61", "b:61", "z:61",
            "t( i:1 s:61 )", "t( f:3ff0000000000000 z:61 )", "t( L:1 b:61 )"]
 
-def histories_exhaustive(maxlen):
-    ops = [(o, k) for o in "SDG" for k in ALPHA10]
+def histories_exhaustive(maxlen, alphabet=None):
+    ops = [(o, k) for o in "SDG" for k in (alphabet or ALPHA10)]
     out = []
     def rec(prefix, n):
         if prefix:
@@ -337,6 +340,10 @@ def c08(res, rng, tier):
     q = tier == "quick"
     hs = histories_exhaustive(3 if q else 4)
     lines = [render_history(h) for h in hs]
+    # one step longer over the three string kinds alone (the non-transitive corner: anything remembered from an
+    # earlier Get / Set must be forgotten when a key of ANOTHER kind replaces the entry), bare and inside tuples
+    for alpha in (["s:61", "z:61", "b:61"], ["t( i:1 s:61 )", "t( f:3ff0000000000000 z:61 )", "t( L:1 b:61 )"]):
+        lines += [render_history(h) for h in histories_exhaustive(4 if q else 5, alpha) if len(h) >= 4]
     # long random histories over the C07 lattice (floats included), Len after every op
     groups = numeric_lattice(rng.fork("lat"))
     keys = [t for k in sorted(groups) for t in groups[k]][:4000] + STRINGISH + OTHERS + SPECIAL_FLOATS[3:7]
